@@ -13,3 +13,10 @@ add("C02", "exhaustive single-fault neighbourhood enumeration per generated fram
 add("C03", "differential testing against an independent byte-level parser: exhaustive short strings + grammar-based generation with generator-health check",
     "Every explored byte string is decoded by flipdot and by an independent hand-written Intel-HEX parser; they must agree on accept/reject, on the error class with the stated precedence, on the reported counts/checksums, and accepted strings must re-encode to themselves up to case/terminator. All strings up to length 4 (5 thorough) over a 28-symbol structural alphabet, all 4^10 minimal frames x 9 terminators and all 3^12 one-byte frames are enumerated; longer inputs come from a grammar-based generator with byte edits whose class balance is measured on every run (exit 2 if a class starves).",
     "trusts the reference parser; strings longer than the exhaustive bound are sampled", "DESIGN.md section 3 C03")
+
+add("C04", "exhaustive enumeration of the frame domain named by the property against a frozen protocol table + table-free duality (inverse-table) oracle",
+    "Every frame in the stated finite domain (256 types x 256 first bytes x 6 lengths x 6 addresses; 65536 addresses x every recognised code; owned and borrowed) is converted Frame->Message->Frame and must come back equal, must be classified exactly as a frozen copy of the protocol table says (kind, carried address, state/operation, data; else Unknown wrapping the same frame), and must be recognised as m exactly when Frame::from(m) equals it (checked against all 32 candidate messages, so the result does not hinge on my transcription). Generated frames with arbitrary data extend it beyond the enumerated lengths.",
+    "frozen table oracle/table.rs; data bytes beyond the first are patterns/sampled", "DESIGN.md section 3 C04")
+add("C05", "exhaustive + property-based wire round trip of every constructible message, with pairwise injectivity",
+    "All addressed message kinds at all 65536 addresses (13 states, 6+6 operations), all 65536 chunk counts and data chunks of every length 0..=255 (contents and offsets generated) go Message->Frame->text->Frame->Message, with and without CRLF, owned and borrowed, and must come back equal in kind, numbers and bytes; encodings are checked pairwise distinct per address and on generated near-collision pairs of data chunks.",
+    "data-chunk contents are sampled; equality is checked on both Message's PartialEq and the harness's mirror type", "DESIGN.md section 3 C05")
